@@ -633,11 +633,6 @@ open ElaVerif.Merkle
 
 /-! ### the merkle branch of one leaf, computed on the full tree -/
 
-/-- `calcBranchRoute`'s choice at level `k` for the ancestor with index `j`: the node itself in the
-    dead zone, otherwise its sibling. -/
-def routeIdx (n k j : Nat) : Nat :=
-  if j = width n k - 1 ∧ j % 2 = 0 then j else if j % 2 = 0 then j + 1 else j - 1
-
 /-- the bit `GetMerkleBranch` sets in `Index` at this level (route node number even) -/
 def routeBit (n k j : Nat) : Nat := if routeIdx n k j % 2 = 0 then 1 else 0
 
@@ -801,5 +796,248 @@ theorem unpack_pack : ∀ (fuel : Nat) (bs : List Bool), bs.length < fuel →
         rw [hp]
         simp only [Nat.sub_self, List.replicate_zero, List.append_nil]
         rw [← List.append_assoc, List.take_append_drop]
+
+/-! ### the node table of `getNodes` and the real `GetTxMerkleBranch` -/
+
+theorem machine_comm_full [DecidableEq α] {n : Nat} {enc : TP → Nat} {Valid : TP → Prop} {special : TP}
+    (L : EncLaws n enc Valid special) (H : α → α → α) (maxTx : Nat) (root : α) (bits : List Bool) (hashes : List α)
+    (f : Nat) :
+    machine (goOps n) H maxTx n root bits hashes f = mapRes enc (machine (treeOps n) H maxTx n root bits hashes f) := by
+  unfold machine
+  by_cases hn : n = 0
+  · simp only [hn, if_true]; rfl
+  · by_cases hm : n > maxTx
+    · simp only [hn, if_false, hm, if_true]; rfl
+    · by_cases hb : bits.isEmpty = true
+      · simp only [hn, if_false, hm, hb, if_true]; rfl
+      · simp only [hn, if_false, hm, hb, Bool.false_eq_true]
+        have := run_comm L H root f ⟨[], (treeOps n).root, bits, hashes, [], []⟩
+          ⟨by intro e he; simp at he, Or.inl L.root_valid⟩
+        simp only [mapSt, List.map_nil, ← L.enc_root] at this
+        exact this
+
+theorem width_le_pow (n D k : Nat) (hn : n ≤ 2 ^ D) (hk : k ≤ D) (q : Nat) (hq : q < width n k) :
+    q < 2 ^ (D - k) := by
+  rw [lt_width_iff] at hq
+  have : 2 ^ D = 2 ^ (D - k) * 2 ^ k := by rw [← Nat.pow_add]; congr 1; omega
+  rw [this] at hn
+  exact Nat.lt_of_mul_lt_mul_right (Nat.lt_of_lt_of_le hq hn)
+
+theorem encD_inj (D : Nat) (p q : TP) (hp : ValidD D p) (hq : ValidD D q) (h : encD D p = encD D q) : p = q := by
+  obtain ⟨h1, i1⟩ := p
+  obtain ⟨h2, i2⟩ := q
+  obtain ⟨f1, f2, f3, f4, _⟩ := pow_facts D h1 hp.1
+  obtain ⟨g1, _, g3, g4, _⟩ := pow_facts D h2 hq.1
+  have hi1 := hp.2
+  have hi2 := hq.2
+  simp only at hi1 hi2 f1 g1 f3 g3 f4 g4
+  unfold encD at h
+  simp only at h
+  rcases Nat.lt_trichotomy h1 h2 with hlt | heq | hgt
+  · exfalso
+    have : 2 ^ (D + 1 - h2) ≤ 2 ^ (D - h1) := Nat.pow_le_pow_right (by omega) (by omega)
+    omega
+  · subst heq
+    have : i1 = i2 := by omega
+    rw [this]
+  · exfalso
+    have : 2 ^ (D + 1 - h1) ≤ 2 ^ (D - h2) := Nat.pow_le_pow_right (by omega) (by omega)
+    omega
+
+theorem calcHash_succ_is_node (H : α → α → α) (txs : List α) (k q : Nat) (x : α)
+    (h : calcHash H txs (k + 1) q = some x) : ∃ a b, x = H a b := by
+  simp only [calcHash] at h
+  cases hl : calcHash H txs k (2 * q) with
+  | none => simp [hl] at h
+  | some l =>
+    simp only [hl] at h
+    split at h
+    · cases hr : calcHash H txs k (2 * q + 1) with
+      | none => simp [hr] at h
+      | some r => simp only [hr, Option.some.injEq] at h; exact ⟨l, r, h.symm⟩
+    · simp only [Option.some.injEq] at h; exact ⟨l, l, h.symm⟩
+
+theorem find_map_fst {β : Type} (l : List (Nat × β)) (p : Nat × β → Bool) (i : Nat)
+    (hex : ∃ a ∈ l, p a = true) (hall : ∀ a ∈ l, p a = true → a.1 = i) :
+    (l.find? p).map (·.1) = some i := by
+  cases hf : l.find? p with
+  | none =>
+    obtain ⟨a, ha, hpa⟩ := hex
+    have := List.find?_eq_none.mp hf a ha
+    simp [hpa] at this
+  | some e =>
+    have hm := List.mem_of_find?_eq_some hf
+    have hp := List.find?_some hf
+    simp [hall e hm hp]
+
+
+theorem route_cons (n ti c k : Nat) :
+    route n ti (c + 1) k = nodeIndex n k (routeIdx n k (ti / 2 ^ k)) :: route n ti c (k + 1) := by
+  rw [route, Nat.shiftRight_eq_div_pow]
+  congr 1
+  unfold routeIdx
+  (repeat' split) <;> rfl
+
+/-- `GetMerkleBranch`'s collection loop over a table that holds correct hashes at the route positions -/
+theorem collect_route [DecidableEq α] (H : α → α → α) (txs : List α) (i : Nat)
+    (tnodes : List (TP × α))
+    (hn2 : txs.length ≤ 2 ^ treeDepth txs.length)
+    (hpres : ∀ k < treeDepth txs.length, ∃ x, ((k, routeIdx txs.length k (i / 2 ^ k)), x) ∈ tnodes)
+    (hcorr : ∀ e ∈ tnodes, calcHash H txs e.1.1 e.1.2 = some e.2)
+    (hlev : ∀ e ∈ tnodes, e.1.1 ≤ treeDepth txs.length) :
+    ∀ (c k w : Nat), k + c = treeDepth txs.length →
+      ∃ sibs, idealSibs H txs c k (i / 2 ^ k) = sibs.map some ∧
+        collect (tnodes.map (fun e => (encD (treeDepth txs.length) e.1, e.2))) (route txs.length i c k) w =
+          some (sibs, 2 ^ w * idealIndex txs.length c k (i / 2 ^ k))
+  | 0, k, w, _ => ⟨[], rfl, by simp [route, collect, idealIndex]⟩
+  | c + 1, k, w, hk => by
+      have hkD : k < treeDepth txs.length := by omega
+      obtain ⟨sibs, hs, hc⟩ := collect_route H txs i tnodes hn2 hpres hcorr hlev c (k + 1) (w + 1) (by omega)
+      have hdiv : i / 2 ^ k / 2 = i / 2 ^ (k + 1) := by rw [Nat.div_div_eq_div_mul, ← Nat.pow_succ]
+      obtain ⟨x, hx⟩ := hpres k hkD
+      have hxc := hcorr _ hx
+      simp only at hxc
+      -- validity of table positions
+      have valid : ∀ e ∈ tnodes, ValidD (treeDepth txs.length) e.1 := by
+        intro e he
+        exact ⟨hlev e he, width_le_pow _ _ _ hn2 (hlev e he) _ (calcHash_alive H txs _ _ _ (hcorr e he))⟩
+      -- the lookup
+      have hlook : ∃ e, ((tnodes.map (fun e => (encD (treeDepth txs.length) e.1, e.2))).reverse.find?
+          (fun e => e.1 = encD (treeDepth txs.length) (k, routeIdx txs.length k (i / 2 ^ k)))) = some e ∧ e.2 = x := by
+        cases hf : ((tnodes.map (fun e => (encD (treeDepth txs.length) e.1, e.2))).reverse.find?
+            (fun e => e.1 = encD (treeDepth txs.length) (k, routeIdx txs.length k (i / 2 ^ k)))) with
+        | none =>
+          have := List.find?_eq_none.mp hf (encD (treeDepth txs.length) (k, routeIdx txs.length k (i / 2 ^ k)), x)
+            (by
+              rw [List.mem_reverse, List.mem_map]
+              exact ⟨_, hx, rfl⟩)
+          simp at this
+        | some e =>
+          refine ⟨e, rfl, ?_⟩
+          have hm := List.mem_of_find?_eq_some hf
+          have hp := List.find?_some hf
+          rw [List.mem_reverse, List.mem_map] at hm
+          obtain ⟨e0, he0, rfl⟩ := hm
+          simp only [decide_eq_true_eq] at hp
+          have := encD_inj _ _ _ (valid e0 he0) (valid _ hx) hp
+          have h2 := hcorr e0 he0
+          rw [this] at h2
+          simp only at h2
+          rw [hxc] at h2
+          exact (Option.some.inj h2).symm
+      obtain ⟨e, hfe, hex⟩ := hlook
+      refine ⟨x :: sibs, ?_, ?_⟩
+      · simp only [idealSibs, List.map_cons, hxc, hdiv, hs]
+      · rw [route_cons, nodeIndex_eq_enc _ _ _ (by omega)]
+        simp only [collect, hfe, hc, hex]
+        congr 2
+        -- the Index arithmetic
+        obtain ⟨f1, f2, f3, f4, _⟩ := pow_facts (treeDepth txs.length) k (by omega)
+        have hh := pow_half (treeDepth txs.length) k hkD
+        simp only [idealIndex, routeBit, hdiv]
+        have hpar : encD (treeDepth txs.length) (k, routeIdx txs.length k (i / 2 ^ k)) % 2 =
+            routeIdx txs.length k (i / 2 ^ k) % 2 := by
+          unfold encD; simp only; omega
+        rw [hpar, Nat.pow_succ]
+        by_cases hb : routeIdx txs.length k (i / 2 ^ k) % 2 = 0
+        · simp only [hb, if_true]
+          rw [Nat.mul_add, Nat.mul_one]
+          have : 2 ^ w * (2 * idealIndex txs.length c (k + 1) (i / 2 ^ (k + 1))) =
+              2 ^ w * 2 * idealIndex txs.length c (k + 1) (i / 2 ^ (k + 1)) := by rw [Nat.mul_assoc]
+          rw [this]
+        · simp only [hb, if_false, Nat.zero_add]
+          rw [Nat.mul_assoc]
+
+
+theorem build_bits_ne_nil' (H : α → α → α) (txs : List α) (matched : List Bool) (h pos : Nat) :
+    (build H txs matched h pos).1 ≠ [] := by
+  cases h with
+  | zero => simp [build]
+  | succ h =>
+    simp only [build]
+    split
+    · simp
+    · split <;> simp
+
+/-- **`GetTxMerkleBranch` on what the node built**: for a matched transaction `i` the real algorithm
+    (stack machine with Go positions, node table, `calcTxIndex`, `calcBranchRoute`, the collection loop)
+    answers the ideal branch and index. -/
+theorem branchOf_build [DecidableEq α] {H : α → α → α} (hinj : Injective2 H) (maxTx : Nat) (txs : List α)
+    (matched : List Bool) (hnd : txs.Nodup) (hne : txs ≠ []) (hmax : txs.length ≤ maxTx)
+    (hsep : ∀ a b, H a b ∉ txs) (i : Nat) (hi : i < txs.length) (hm : matched[i]?.getD false = true)
+    (pad : List Bool) :
+    ∃ root hs sibs k, calcHash H txs (treeDepth txs.length) 0 = some root ∧
+      (build H txs matched (treeHeight txs.length) 0).2 = hs.map some ∧
+      idealSibs H txs (treeDepth txs.length) 0 i = sibs.map some ∧
+      ∀ f, branchOf H maxTx txs.length root ((build H txs matched (treeHeight txs.length) 0).1 ++ pad) hs txs[i] (k + f) =
+        .ok (sibs, idealIndex txs.length (treeDepth txs.length) 0 i) := by
+  have hn : 0 < txs.length := List.length_pos_iff.mpr hne
+  have hD := treeHeight_eq_depth txs.length
+  have hn2 : txs.length ≤ 2 ^ treeDepth txs.length := by rw [← hD]; exact treeHeight_spec _
+  obtain ⟨root, hs, hc, hb, he⟩ := extract_build hinj txs matched hnd (treeHeight txs.length) 0 (root_alive _ _ hn)
+  obtain ⟨s, hes, h1, _, _, _, h5⟩ := he pad []
+  rw [List.append_nil] at hes
+  -- the recursive parser's answer
+  have hbits : ((build H txs matched (treeHeight txs.length) 0).1 ++ pad).isEmpty = false := by
+    cases hb' : (build H txs matched (treeHeight txs.length) 0).1 with
+    | nil => exact absurd hb' (build_bits_ne_nil' H txs matched _ 0)
+    | cons _ _ => simp
+  have hext : extractTop H maxTx txs.length root ((build H txs matched (treeHeight txs.length) 0).1 ++ pad) hs =
+      .ok (s.ids, s.nodes) := by
+    unfold extractTop
+    have a : ¬ txs.length = 0 := by omega
+    have b : ¬ txs.length > maxTx := by omega
+    simp only [a, b, if_false, hbits, hes, h1, if_true, Bool.false_eq_true]
+  -- the Go machine
+  obtain ⟨k, hk⟩ := machine_refines_full H maxTx txs.length root ((build H txs matched (treeHeight txs.length) 0).1 ++ pad) hs
+  have hgo : ∀ f, machine (goOps txs.length) H maxTx txs.length root
+      ((build H txs matched (treeHeight txs.length) 0).1 ++ pad) hs (k + f) =
+      .ok (s.ids, s.nodes.map (fun e => (encD (treeDepth txs.length) e.1, e.2))) := by
+    intro f
+    rw [machine_comm_full (encLaws txs.length hn) H maxTx root _ hs (k + f), hk f, hext]
+    rfl
+  -- facts about the table
+  have hxi : txs[i]? = some txs[i] := List.getElem?_eq_getElem hi
+  have hleaf : ((0, i), txs[i]) ∈ s.nodes := h5 i txs[i] (by simp [Nat.div_eq_of_lt (Nat.lt_of_lt_of_le hi (hD ▸ hn2))]) hm hxi
+  have hcorr := extract_nodes_correct hinj txs _ 0 _ _ s root hes (hD ▸ hc) h1
+  have hlev : ∀ e ∈ s.nodes, e.1.1 ≤ treeDepth txs.length := by
+    intro e he'; rw [← hD]; exact (extract_subtree H txs.length _ 0 _ _ s hes e he').1
+  have hpres : ∀ k < treeDepth txs.length, ∃ x, ((k, routeIdx txs.length k (i / 2 ^ k)), x) ∈ s.nodes := by
+    intro k hk'
+    exact extract_route_present H txs.length _ 0 _ _ s i txs[i] (root_alive _ _ hn) hes hleaf k (hD ▸ hk')
+  obtain ⟨sibs, hsibs, hcol⟩ := collect_route H txs i s.nodes hn2 hpres hcorr hlev (treeDepth txs.length) 0 0 (by omega)
+  simp only [Nat.pow_zero, Nat.div_one, Nat.one_mul] at hsibs hcol
+  refine ⟨root, hs, sibs, k, hD ▸ hc, hb, hsibs, ?_⟩
+  intro f
+  unfold branchOf
+  rw [hgo f]
+  simp only
+  -- calcTxIndex finds position i
+  have hti : txIndex txs.length (s.nodes.map (fun e => (encD (treeDepth txs.length) e.1, e.2))) txs[i] = some i := by
+    unfold txIndex
+    apply find_map_fst
+    · refine ⟨(encD (treeDepth txs.length) (0, i), txs[i]), List.mem_map.mpr ⟨_, hleaf, rfl⟩, ?_⟩
+      have : encD (treeDepth txs.length) (0, i) = i := by unfold encD; simp
+      simp only [this, width_zero]
+      have : ¬ i > txs.length := by omega
+      simp [this]
+    · intro a ha hp
+      obtain ⟨e0, he0, rfl⟩ := List.mem_map.mp ha
+      simp only [Bool.and_eq_true, decide_eq_true_eq] at hp
+      have hc0 := hcorr e0 he0
+      rw [hp.2] at hc0
+      obtain ⟨⟨k0, q0⟩, x0⟩ := e0
+      simp only at hc0 ⊢
+      cases k0 with
+      | zero =>
+        have hci : calcHash H txs 0 i = some txs[i] := by simp [calcHash, hxi]
+        have := calcHash_pos_inj hinj txs hnd 0 q0 i txs[i] hc0 hci
+        subst this
+        unfold encD; simp
+      | succ k0 =>
+        obtain ⟨a, b, hab⟩ := calcHash_succ_is_node H txs k0 q0 _ hc0
+        exact absurd (hab ▸ List.getElem_mem hi) (hsep a b)
+  rw [hti]
+  simp only [hcol]
 
 end ElaVerif.PMT
